@@ -795,12 +795,8 @@ impl OutstationSession {
                     Ok(UnsolicitedWaitResult::ReadNext)
                 }
             }
-            FragmentType::SolicitedConfirm(_) => {
-                if let Some(BroadcastConfirmMode::Mandatory) = self.state.last_broadcast_type {
-                    self.clear_reported_broadcast();
-                } else {
-                    tracing::warn!("ignoring solicited confirm");
-                }
+            FragmentType::SolicitedConfirm(seq) => {
+                self.on_unawaited_solicited_confirm(seq);
                 Ok(UnsolicitedWaitResult::ReadNext)
             }
             FragmentType::Broadcast(mode) => {
@@ -1117,10 +1113,7 @@ impl OutstationSession {
                 None
             }
             FragmentType::SolicitedConfirm(seq) => {
-                tracing::warn!(
-                    "ignoring solicited CONFIRM from idle state with seq: {}",
-                    seq.value()
-                );
+                self.on_unawaited_solicited_confirm(seq);
                 None
             }
             FragmentType::UnsolicitedConfirm(seq) => {
@@ -2081,6 +2074,29 @@ impl OutstationSession {
         if self.state.broadcast_reported {
             self.state.last_broadcast_type = None;
             self.state.broadcast_reported = false;
+        }
+    }
+
+    /// a solicited CONFIRM that no solicited confirm wait is waiting for (idle, or received while an
+    /// unsolicited response awaits its confirmation): it is still the confirmation a confirm-mandatory
+    /// broadcast is waiting for if - and only if - it carries the sequence number of the last
+    /// solicited response
+    fn on_unawaited_solicited_confirm(&mut self, seq: Sequence) {
+        let confirms_last_response = self
+            .state
+            .last_valid_request
+            .as_ref()
+            .is_some_and(|x| x.seq == seq);
+
+        if confirms_last_response
+            && self.state.last_broadcast_type == Some(BroadcastConfirmMode::Mandatory)
+        {
+            self.clear_reported_broadcast();
+        } else {
+            tracing::warn!(
+                "ignoring solicited CONFIRM with seq: {}",
+                seq.value()
+            );
         }
     }
 
